@@ -38,6 +38,11 @@ def c08_drill_mixed_text(case, out):
         return False
     if "is not in list" not in out.get("detail", ""):
         return False
+    return drill_mixed_labels(case)
+
+
+def drill_mixed_labels(case):
+    """Some text / category partition column has labels of which some parse as numbers/dates and some do not."""
     cols = {c["name"]: c for c in case["frame"]["cols"]}
     for p in case["partition_on"]:
         c = cols[p]
